@@ -574,7 +574,7 @@ def corpus(rng):
 
 
 def gen(rng, tier):
-    nprog, per = (44, 50) if tier == 'quick' else (600, 60)
+    nprog, per = (44, 40) if tier == 'quick' else (600, 60)
     cases = []
     fixed = corpus(rng)
     for pr in fixed:
